@@ -486,10 +486,10 @@ func TestVerifC40(t *testing.T) {
 			gws[i] = NewGateway(c40Addr(i), w)
 		}
 		CalculateBucketsForGateways(gws)
-		// quick tier: the first list gets all 2^32 port pairs, the others every 4th local port (2^30 pairs)
+		// quick tier: the first list gets all 2^32 port pairs, the others every 16th local port (2^28 pairs)
 		step := 1
 		if !c.Thorough() && vi > 0 {
-			step = 4
+			step = 16
 		}
 		counts := make([]atomic.Int64, len(ws))
 		var notOk, wrong atomic.Int64
